@@ -420,6 +420,16 @@ fn codec_clause(set: &[J], perms: &[Vec<usize>], st: &mut Stats) -> Result<(), S
                     if !cur.is_empty() || !from_lib(&got, root, &env).is_ok_and(|g| veq(&g, v)) {
                         return Err(format!("input {i}: value {lv:?} written under ordering {a} reads as {got:?} under ordering {b}"));
                     }
+                    // the same through a container file: Writer::with_schemata under one ordering,
+                    // Reader with schemata under the other
+                    let mut cw = apache_avro::Writer::with_schemata(&per_order[a][i], order.iter().map(|&k| &per_order[a][k]).collect(), Vec::new(), apache_avro::Codec::Null).map_err(|e| format!("input {i}: Writer::with_schemata (ordering {a}): {e}"))?;
+                    cw.append_value_ref(&lv).map_err(|e| format!("input {i}: container append under ordering {a}: {e}"))?;
+                    let file = cw.into_inner().map_err(|e| format!("input {i}: container finish: {e}"))?;
+                    let mut cr = apache_avro::Reader::builder(&file[..]).schemata(order.iter().map(|&k| &per_order[b][k]).collect()).build().map_err(|e| format!("input {i}: Reader with the schemata of ordering {b} cannot open a file written under ordering {a}: {e}"))?;
+                    match cr.next() {
+                        Some(Ok(g)) if from_lib(&g, root, &env).is_ok_and(|x| veq(&x, v)) => {}
+                        other => return Err(format!("input {i}: container file written under ordering {a} reads as {other:?} under ordering {b}")),
+                    }
                     Ok(())
                 });
                 match r {
